@@ -1222,7 +1222,10 @@ impl CodegenContext {
             Token::ProgramCounterDefinition { value, .. } => {
                 if let Some(pc) = self.evaluate_expression_as_i64(value, true)? {
                     if let Some(seg) = self.try_current_segment_mut() {
-                        seg.set_pc(pc);
+                        // '*' is the address the code runs at: in a segment with a 'pc' of its own the place where the
+                        // bytes are stored lies 'target_offset' away from it
+                        let offset = seg.target_offset();
+                        seg.set_pc(pc - offset);
                     }
                 }
             }
